@@ -15,10 +15,29 @@ if os.path.exists(p):
         m = re.match(r"(\S+) prop=(\S+) tests\(pass/fail\)=(\S+) check_rc=(\d+) first_signature=(.*)", ln.strip())
         if m:
             out.append("| %s | %s | %s | %s | `%s` |" % (m.group(1), m.group(2), m.group(3), m.group(4), m.group(5).replace("|", "\\|")))
+metas = [json.load(open(d)) for d in sorted(glob.glob(os.path.join(HERE, "seeded", "*", "meta.json")))]
+rounds = {}
+for m in metas:
+    r = m["id"].split("-")[1][0]
+    first = not m["history"].upper().startswith("MISSED")
+    a = rounds.setdefault(r, [0, 0])
+    a[0] += 1
+    a[1] += first
 out += ["", "**(b) Changes written by independent sub-agents** (`seeded/<id>/`: patch.diff, the agent's demonstration, meta.json). Each",
-        "agent got only the text of one property and its own scratch worktree; round B agents were additionally told, in one line,",
-        "which idea round A had used, so that they would pick another mechanism. Every change was confirmed by me in the scratch",
-        "worktree (suite 223/0 with the change; demonstration fails with it and passes without it) before it was kept.", "",
+        "agent got only the text of one property and its own scratch worktree - nothing from /verif; from round B on it was also told,",
+        "in one line each, which ideas earlier rounds had used for that property, and asked for a different mechanism. Every change was",
+        "confirmed by me in the scratch worktree (suite 223/0 with the change; demonstration fails with it and passes without it) before",
+        "it was kept. 'First run' is the verdict of the harness as it was when the round was launched (from round C on measured",
+        "mechanically with `tools/measure_round.sh <commit> <round>`); 'now' is the current harness.", "",
+        "| round | changes | caught at first run | caught now |", "|---|---|---|---|"]
+for r in sorted(rounds):
+    out.append("| %s | %d | %d | %d |" % (r.upper(), rounds[r][0], rounds[r][1], rounds[r][0]))
+out += ["",
+        "The agents were asked for changes that evade ordinary use and the existing tests, and from round B on also the ideas already",
+        "used - i.e. they were aimed at whatever the workloads did not yet contain. Every miss turned out to be a blind spot of a",
+        "*generator* (a file shape, a configuration, an environment, a fault combination or a history the workload never produced),",
+        "not of an oracle; each was closed by widening the generator, after which the change is caught. The misses are the most",
+        "useful part of this table: they say which dimensions a fresh change is most likely to hide in.", "",
         "| id | property | what it needs to manifest | first run | now | what was strengthened |", "|---|---|---|---|---|---|"]
 res = {}
 p = os.path.join(HERE, "sensitivity", "seeded.txt")
